@@ -35,6 +35,13 @@ def cases(rng, tier, Case):
         docs.append(tabfree(d))
     for _ in range(n):
         docs.append(tabfree(mdgen.clean_utf8(mdgen.gen_doc(rng))))
+    # documents one container short of a limit (seed C06-11: a nesting level leaked per empty item shows only when the added
+    # container uses up the last level) and lists whose tightness must not depend on what precedes them (seed C06-12)
+    for k in (30, 50, 98, 99, 100) if tier == "quick" else (10, 30, 50, 90, 97, 98, 99, 100, 101, 150):
+        docs += ["-\n\n" * k + "tail *e*", "- a\n\n" * k + "tail", "1.\n\n" * k + "# h", ">\n\n" * k + "tail", "- x\n" * k + "\ntail", "-\n" * k + "\ntail",
+                 "> " * min(k, 98) + "q\n\ntail", "- " * min(k, 98) + "i\n\ntail"]
+    docs += ["-\n- a", "1.\n2. a", "# h\n-\n- a", "p\n\n-\n- a\n- b", "-\n- a\n\n- b", "-\n\n- a", "- a\n-\n- b", "# h\n1.\n2. a\n3. b", "-\n  - a\n  - b", "***\n-\n- a",
+             "-\n- a\n\np\n\n-\n- b"]
     for d in docs:
         # line separators other than LF would change the prefixing relation itself
         d = d.replace("\x0b", " ").replace("\x0c", " ").replace(" ", " ").replace("\u0085", " ")
